@@ -67,8 +67,14 @@ static std::string runOne(const std::string &proto, const std::vector<std::strin
   };
   t->onAccept([&](SessionId s, const TransportAddress &) { addAnn(s); tr.add(vf::Ev("Accept").i("s", (long long)s).i("g", gauge())); });
   t->onConnect([&](SessionId s, const TransportAddress &) { addAnn(s); tr.add(vf::Ev("Connect").i("s", (long long)s).i("g", gauge())); });
-  t->onData([&](SessionId s, iora::core::BufferView d, std::chrono::steady_clock::time_point)
-            { tr.add(vf::Ev("Data").i("s", (long long)s).i("n", (long long)d.size()).i("g", gauge())); });
+  std::atomic<int> busyMs{0};
+  t->onData(
+    [&](SessionId s, iora::core::BufferView d, std::chrono::steady_clock::time_point)
+    {
+      tr.add(vf::Ev("Data").i("s", (long long)s).i("n", (long long)d.size()).i("g", gauge()));
+      int b = busyMs.exchange(0);
+      if (b > 0) std::this_thread::sleep_for(std::chrono::milliseconds(b)); // a slow application callback keeps the I/O thread busy
+    });
   std::atomic<int> reconnects{0};
   std::atomic<int> reconnectPort{0};
   t->onClose(
@@ -165,6 +171,19 @@ static std::string runOne(const std::string &proto, const std::vector<std::strin
       auto r = t->connect("127.0.0.1", p, TlsMode::None);
       tr.add(vf::Ev("ConnRet").i("s", r.isOk() ? (long long)r.value() : 0).b("ok", r.isOk()));
       settle(80);
+    }
+    else if (op == "busy")
+      busyMs = atoi(f[1].c_str());
+    else if (op == "psendnow")
+    {
+      std::string buf((size_t)atoi(f[2].c_str()), 'p');
+      (void)!write(peers[atoi(f[1].c_str())], buf.data(), buf.size());
+      settle(15); // just enough for the data callback to have started
+    }
+    else if (op == "connectnow")
+    {
+      auto r = t->connect("127.0.0.1", port, TlsMode::None);
+      tr.add(vf::Ev("ConnRet").i("s", r.isOk() ? (long long)r.value() : 0).b("ok", r.isOk()));
     }
     else if (op == "reconnect")
     {
